@@ -1,3 +1,4 @@
+import AtsimModel.Gen.Logic
 import AtsimModel.Lemmas.ExprReal
 import AtsimModel.Gen.Forms
 import AtsimModel.Gen.Splines
@@ -254,5 +255,111 @@ theorem C10_buck4_unique (rdp rmin rap v0 d0 dd0 v1 d1 dd1 : ℝ) (h1 : rdp < rm
     (by linear_combination r1 - r1') (by linear_combination r5 - r5') (by linear_combination r2 - r2')
     (by linear_combination r4 - r4') (by linear_combination r3 - r3') (by linear_combination r7 - r7')
   rw [sub_eq_zero.mp e0, sub_eq_zero.mp e1, sub_eq_zero.mp e2, sub_eq_zero.mp e3, sub_eq_zero.mp e4, sub_eq_zero.mp e5]
+
+/-! ## Code tie: the glue of the `spline()` modifier (`_modifiers.spline`), regenerated from the source
+
+Which part of the definition is the start potential, which the end potential, where the spline detaches and attaches, which spline type is built, and what is refused.
+The form builder (`mkFn`), the two spline factories' `build_spline` (`buildSpline`, told apart by the factory's keyword) and `Custom_SplinePotential`
+(`mkSplinePotential`) are parameters; the join conditions of what `buildSpline` builds are the theorems above. -/
+namespace SplineGlue
+open Atsim.Gen.Logic
+
+/-- what the modifier does, written out -/
+def splineSpec (negInf : Rat) (mkFn : PInstS → FnObj2) (buildSpline : SplFactory → SplPoint → SplPoint → PInstS → Except SplBuildErr SplCore)
+    (mkSplinePotential : SplCore → SplObj) (forms : List PInstS) : Except SplErr SplObj :=
+  match forms with
+  | [p1] =>
+    match p1.next with
+    | none => .error .onlyOne
+    | some p2 =>
+      if p2.isModifier then .error .middleIsModifier
+      else if !(["exp_spline", "buck4_spline"].contains p2.name) then .error .unknownSplineType
+      else match p2.next with
+        | none => .error .onlyTwo
+        | some p3 =>
+          if p3.next.isSome then .error .moreThanThree
+          else if ¬ (p1.start.start < p2.start.start) then .error .firstNotBelowSecond
+          else if ¬ (p2.start.start < p3.start.start) then .error .secondNotBelowThird
+          else
+            -- the start potential is the FIRST part alone, with its own range start; the end potential is the THIRD part alone, made valid from minus infinity;
+            -- the spline detaches where the SECOND part starts and attaches where the THIRD part starts; the second part's label selects the factory
+            match buildSpline ⟨p2.name⟩ ⟨mkFn { p1 with next := none }, p2.start.start⟩
+                    ⟨mkFn { p3 with start := ⟨">", negInf⟩, next := none }, p3.start.start⟩ { p2 with next := none } with
+            | .ok c => .ok (mkSplinePotential c)
+            | .error .arithmetic => .error .cannotJoin
+            | .error .importError => .error .needsPackage
+            | .error .config => .error .config
+  | _ => .error .notOneArgument
+
+theorem filter_kw (n : String) (h : ["exp_spline", "buck4_spline"].contains n = true) :
+    ([expSplineFactory, buck4SplineFactory].filter fun s => (if (s.spline_keyword == n) then true else false))[0]? = some ⟨n⟩ := by
+  simp only [List.contains_eq_mem, List.mem_cons, List.not_mem_nil, or_false, decide_eq_true_eq] at h
+  rcases h with h | h
+  · subst h; simp [expSplineFactory, buck4SplineFactory, List.filter]
+  · subst h
+    have : ("exp_spline" == "buck4_spline") = false := by decide
+    simp [expSplineFactory, buck4SplineFactory, List.filter, this]
+
+end SplineGlue
+
+open Atsim.Gen.Logic SplineGlue in
+/-- **code tie**: `spline()` as regenerated is `splineSpec` for every argument list -/
+theorem C10_code_spline_modifier (negInf : Rat) (mkFn : PInstS → FnObj2) (buildSpline : SplFactory → SplPoint → SplPoint → PInstS → Except SplBuildErr SplCore)
+    (mkSplinePotential : SplCore → SplObj) (forms : List PInstS) :
+    spline_modifier negInf mkFn buildSpline mkSplinePotential forms () = splineSpec negInf mkFn buildSpline mkSplinePotential forms := by
+  rcases forms with _ | ⟨p1, _ | ⟨q, rest⟩⟩
+  · simp [spline_modifier, splineSpec]
+  · unfold spline_modifier splineSpec
+    simp only [List.length_cons, List.length_nil, List.getElem?_cons_zero]
+    cases h1 : p1.next with
+    | none => simp
+    | some p2 =>
+      simp only [PInstS.isForm]
+      cases hm : p2.isModifier with
+      | true => simp
+      | false =>
+        have hmap : ([expSplineFactory, buck4SplineFactory].map fun s => s.spline_keyword) = ["exp_spline", "buck4_spline"] := rfl
+        simp only [hmap]
+        cases hc : ["exp_spline", "buck4_spline"].contains p2.name with
+        | false => simp
+        | true =>
+          simp only [filter_kw _ hc]
+          cases h2 : p2.next with
+          | none => simp
+          | some p3 =>
+            simp only []
+            cases h3 : p3.next with
+            | some p4 => simp
+            | none =>
+              simp only [Option.isSome_none, Bool.false_eq_true, if_false, decide_eq_true_eq, ite_not]
+              by_cases ha : p1.start.start < p2.start.start
+              · by_cases hb : p2.start.start < p3.start.start
+                · simp only [ha, hb, if_true]
+                  generalize buildSpline _ _ _ _ = r
+                  rcases r with e | c
+                  · cases e <;> rfl
+                  · rfl
+                · simp [ha, hb]
+              · simp [ha]
+  · simp [spline_modifier, splineSpec]
+    omega
+
+open Atsim.Gen.Logic SplineGlue in
+/-- a spline whose attach point does not lie above its detach point, or whose first part does not start below the detach point, is refused before anything is built -/
+theorem C10_code_spline_order (negInf : Rat) (mkFn : PInstS → FnObj2) (buildSpline : SplFactory → SplPoint → SplPoint → PInstS → Except SplBuildErr SplCore)
+    (mkSplinePotential : SplCore → SplObj) (p1 p2 p3 : PInstS) (h1 : p1.next = some p2) (h2 : p2.next = some p3) (h3 : p3.next = none)
+    (hf : p2.isModifier = false) (hk : p2.name = "exp_spline" ∨ p2.name = "buck4_spline") (o : SplObj)
+    (hok : spline_modifier negInf mkFn buildSpline mkSplinePotential [p1] () = .ok o) :
+    p1.start.start < p2.start.start ∧ p2.start.start < p3.start.start := by
+  rw [C10_code_spline_modifier] at hok
+  have hc : ["exp_spline", "buck4_spline"].contains p2.name = true := by
+    rcases hk with h | h <;> simp [h]
+  unfold splineSpec at hok
+  simp only [h1, h2, h3, hf, hc] at hok
+  by_cases ha : p1.start.start < p2.start.start
+  · by_cases hb : p2.start.start < p3.start.start
+    · exact ⟨ha, hb⟩
+    · simp [ha, hb] at hok
+  · simp [ha] at hok
 
 end Atsim.C10
